@@ -86,6 +86,42 @@ func closureReadByte(ci ssa.CallInstruction) (string, bool) {
 	return "", false
 }
 
+// helperReadByte recognises a call of a package-level helper whose body is a
+// single ReadByte on one of its parameters (the same thing as the closure
+// above, written as a function); returns the receiver key in caller terms.
+func helperReadByte(ci ssa.CallInstruction) (string, bool) {
+	if ci.Common().IsInvoke() {
+		return "", false
+	}
+	fn := ci.Common().StaticCallee()
+	if fn == nil || len(fn.Blocks) != 1 || len(fn.FreeVars) != 0 {
+		return "", false
+	}
+	n := 0
+	var recv ssa.Value
+	for _, ins := range fn.Blocks[0].Instrs {
+		if c, ok := ins.(ssa.CallInstruction); ok {
+			n++
+			if calleeName(c) != "(*bytes.Buffer).ReadByte" {
+				return "", false
+			}
+			recv = c.Common().Args[0]
+		}
+		if _, ok := ins.(*ssa.Store); ok {
+			return "", false
+		}
+	}
+	if n != 1 {
+		return "", false
+	}
+	for i, p := range fn.Params {
+		if recv == ssa.Value(p) && i < len(ci.Common().Args) {
+			return sx(ci.Common().Args[i]), true
+		}
+	}
+	return "", false
+}
+
 // runBuffers computes the typestate for all blocks (called from computeFacts
 // in reverse post-order, after the block's facts are known).
 func (bf *boundsFn) bufTransfer(b *ssa.BasicBlock, in bufState) bufState {
@@ -109,6 +145,10 @@ func (bf *boundsFn) bufTransfer(b *ssa.BasicBlock, in bufState) bufState {
 				continue
 			}
 			if k, ok := closureReadByte(x); ok {
+				bf.bufRead(st, k, b, ins)
+				continue
+			}
+			if k, ok := helperReadByte(x); ok {
 				bf.bufRead(st, k, b, ins)
 				continue
 			}
